@@ -888,10 +888,10 @@ func main() {
 		s := s
 		t := time.Now()
 		// every history of length <= 5 is executed whatever the canonical key says in the one-trace scenarios (alphabet <= 11),
-		// of length <= 4 (thorough: 5) in the two-trace ones (alphabet 16)
+		// of length <= 4 in the two-trace ones (alphabet 16) and in those with up to 4 spans per trace
 		noMerge := 4
-		if len(s.ids) > 1 {
-			noMerge = ev.Pick(r, 3, 4)
+		if len(s.ids) > 1 || s.maxSpans > 3 {
+			noMerge = 3
 		}
 		st := seqx.Explore(r, seqx.Scenario[event]{
 			Name: s.name, Enabled: s.enabled,
